@@ -1,6 +1,6 @@
 """C13 - the instance manager stays consistent under any sequence of operations.
 
-D: TLC explores spec/InstMgr.tla exhaustively for a small pool (invariants Inv, ByNameOK; action properties
+D: TLC explores spec/InstMgr.tla exhaustively for a small pool (invariants Inv, ByNameOK, VerifyOK; action properties
    FreshOK, OrderOK).
 G: spec/InstMgr_Gen.tla enumerates every call history up to a length bound (then random long ones); each is
    replayed on the real InstMgr and the projection after the last call is compared with the module's prediction.
@@ -94,7 +94,7 @@ def run(ctx):
         ctx.violation("design|" + v, "InstMgr (the design the code is bound to) violates %s" % v, {"tlc": d.tail[-40:]})
     cov["states"], cov["transitions"] = d.distinct, d.generated
     cov["design"] = {"module": "InstMgr_MC", "constants": "NObj=3 MaxExpl=2 maxId<=4", "invariants":
-                     ["Inv", "ByNameOK"], "action_properties": ["FreshOK", "OrderOK"], "depth": d.depth}
+                     ["Inv", "ByNameOK", "VerifyOK"], "action_properties": ["FreshOK", "OrderOK"], "depth": d.depth}
     # ---- G exhaustive
     L = 4 if q else 5
     j1 = Judge(ctx, "G-exhaustive")
